@@ -515,6 +515,23 @@ namespace vf
             g.set_base_levels(scrambled(nbl));
             what += " set_base_levels(" + vg::describe_set(nbl) + ")";
         }
+        if (s.chance(30))
+        {
+            // a refused call: a mask of another shape is rejected with an error and must leave the
+            // graph's mask as it was (seeded changes C04-G / C05-H install it before they throw)
+            bool threw = false;
+            try
+            {
+                g.set_mask_bad_shape();
+            }
+            catch (const std::exception&)
+            {
+                threw = true;
+            }
+            if (!threw)
+                throw vh::Violation{ "bad-mask-accepted", "set_mask with an array of another shape was accepted" };
+            what += " set_mask(wrong shape: refused)";
+        }
         finish_case(fc);
         return what;
     }
